@@ -237,6 +237,64 @@ pub fn base_patterns_scalar(len: usize) -> Vec<(&'static str, std::sync::Arc<Vec
     v.into_iter().map(|(n, o)| (n, std::sync::Arc::new(o))).collect()
 }
 
+/// Tick-grid walks for medium periods: prices on a coarse grid (many exact ties, plateaus, double tops,
+/// runs) driven by the seeded LCG, with an occasional reset().  Combinations of two or three events at a
+/// particular phase of the ring (a tie, k ordinary inputs, a new extreme exactly when the tied value
+/// leaves) occur many times per stream for every period 6..40.
+pub fn tick_walk(len: usize, seed: u64, bars: bool, positive: bool, with_reset: bool) -> std::sync::Arc<Vec<Op>> {
+    let mut lcg = crate::alpha::Lcg::new(seed ^ 0x71c4);
+    let mut level: i64 = 40;
+    let mut v = Vec::with_capacity(len);
+    for i in 0..len {
+        let r = lcg.next_u64() >> 20;
+        // steps: mostly 0 / +-1, sometimes +-2..4; sticky plateaus
+        let step = match r % 16 {
+            0..=5 => 0,
+            6..=8 => 1,
+            9..=11 => -1,
+            12 => 2,
+            13 => -2,
+            14 => 4,
+            _ => -3,
+        };
+        level = (level + step).clamp(if positive { 4 } else { -60 }, 120);
+        if !positive && r % 97 == 0 {
+            level = -level;
+        }
+        if with_reset && i > 0 && (r >> 8) % 211 == 0 {
+            v.push(Op::Reset);
+            continue;
+        }
+        let x = level as f64 * 0.25;
+        if bars {
+            // wicks on the same grid; close at high / low / mid
+            let up = ((r >> 4) % 3) as f64 * 0.25;
+            let dn = ((r >> 6) % 3) as f64 * 0.25;
+            let c = match (r >> 9) % 3 {
+                0 => x + up,
+                1 => x - dn,
+                _ => x,
+            };
+            v.push(Op::B(Bar { o: x, h: x + up, l: x - dn, c, v: ((r >> 11) % 4) as f64 }));
+        } else {
+            v.push(Op::S(x));
+        }
+    }
+    std::sync::Arc::new(v)
+}
+
+/// Families (one per configuration and seed) over `tick_walk`, every step checked.
+pub fn tick_walk_families(cfgs: &[Cfg], len: usize, seed: u64, bars: bool, positive: bool) -> Vec<Family> {
+    let mut f = vec![];
+    for (k, s) in [seed, seed.wrapping_add(17)].into_iter().enumerate() {
+        let base = tick_walk(len, s, bars, positive, k == 1);
+        for cfg in cfgs {
+            f.push(Family { cfg: *cfg, base: base.clone(), base_name: if k == 0 { "tick-walk" } else { "tick-walk+reset" }, deviations: vec![], check_at: (1..=len).collect() });
+        }
+    }
+    f
+}
+
 pub fn base_patterns_pos(len: usize) -> Vec<(&'static str, std::sync::Arc<Vec<Op>>)> {
     let v: Vec<(&'static str, Vec<Op>)> = vec![
         ("ramp-up", (0..len).map(|i| Op::S(1.0 + i as f64)).collect()),
